@@ -47,7 +47,7 @@ type features struct {
 	shadowHasWork bool
 	// shadowHasStore: ... contain a store
 	shadowHasStore bool
-	// shadowHasTrap: ... contain div/rem, a jump (j/jal/jalr) or a branch to an undefined label
+	// shadowHasTrap: ... contain div/rem, a jump (j/jal/jalr), a conditional branch or an undefined label
 	shadowHasTrap bool
 	// shadowHasMem: ... contain a load or a store
 	shadowHasMem bool
@@ -164,7 +164,7 @@ func featuresOf(c *core.Case) *features {
 				if sh.Op.IsStore() {
 					f.shadowHasStore = true
 				}
-				if sh.Op == isa.DIV || sh.Op == isa.REM || sh.Op.IsJump() {
+				if sh.Op == isa.DIV || sh.Op == isa.REM || sh.Op.IsJump() || sh.Op.IsCondBranch() {
 					f.shadowHasTrap = true
 				}
 				if sh.Label != "" {
